@@ -1,6 +1,7 @@
 package main
 
 import (
+	"unsafe"
 	"fmt"
 	"go/token"
 	"go/types"
@@ -106,6 +107,26 @@ func (in *Interp) eq(x, y Value) *Term {
 		return res
 	case Arr:
 		ys := y.(Arr)
+		if len(x) > 1 {
+			// byte arrays (hashes): compare as one wide bit-vector, so that the
+			// bytes of a 256-bit hash term re-assemble to the term itself
+			bytes := true
+			for i := range x {
+				tx, ok1 := x[i].(*Term)
+				ty, ok2 := ys[i].(*Term)
+				if !ok1 || !ok2 || tx.w != 8 || ty.w != 8 {
+					bytes = false
+					break
+				}
+			}
+			if bytes {
+				xs, yt := make([]*Term, len(x)), make([]*Term, len(x))
+				for i := range x {
+					xs[i], yt[i] = x[i].(*Term), ys[i].(*Term)
+				}
+				return in.tt.Eq(in.packBytes(xs, len(xs)), in.packBytes(yt, len(yt)))
+			}
+		}
 		res := tTrue
 		for i := range x {
 			res = in.tt.And(res, in.eq(x[i], ys[i]))
@@ -973,6 +994,23 @@ func (in *Interp) callBuiltin(caller *frame, fn *ssa.Builtin, args []Value) Valu
 			}
 		}
 		return nil
+	case "String":
+		// unsafe.String(ptr, n): the n cells starting at ptr lie in one backing
+		// array of the interpreted program, hence in one []Value of ours
+		if p, ok := args[0].(Ptr); ok {
+			n, okn := args[1].(*Term)
+			if okn && n.IsConst() {
+				if n.c == 0 {
+					return mkStr("")
+				}
+				cells := unsafe.Slice((*Value)(p), int(n.c))
+				ts := make([]*Term, len(cells))
+				for i, c := range cells {
+					ts[i] = c.(*Term)
+				}
+				return strFromTerms(ts)
+			}
+		}
 	case "print", "println":
 		return nil
 	case "panic":
